@@ -3,7 +3,7 @@ import os
 from xml.parsers.expat import ExpatError
 from typing import Optional, Tuple, Union
 
-from plistlib import dumps, load
+from plistlib import dumps, InvalidFileException, load
 
 from . import json
 from .edits import Edit, EditCollection, Match
@@ -177,6 +177,10 @@ class PLIST(Filetype):
             return self.build_tree(path=path, options=options)
         except ExpatError as ee:
             return f'Error parsing {os.path.basename(path)}: {ee})'
+        except (InvalidFileException, ValueError, IndexError) as e:
+            # plistlib reports structural problems (e.g., a value where a key is expected) with these exceptions,
+            # sometimes before expat gets to the underlying syntax error
+            return f'Error parsing {os.path.basename(path)}: {e!s}'
 
     def get_default_formatter(self) -> PLISTFormatter:
         return PLISTFormatter.DEFAULT_INSTANCE
